@@ -176,7 +176,10 @@ def transforms(rng, fscale):
     t = [("pow2", 2.0 ** rng.randint(-40, 40), 0.0), ("pow2", 2.0 ** rng.choice([-30, -3, 1, 10, 30]), 0.0),
          ("factor", rng.choice([3.0, 0.1, 1e9, 1e-3, 3.7, rng.uniform(0.05, 50)]), 0.0),
          ("offset", 1.0, fscale * rng.choice([1.0, -1.0, 0.37, -2.5, 100.0, rng.uniform(-3, 3)])),
-         ("factor+offset", rng.uniform(0.1, 1e3), fscale * rng.uniform(-2, 2))]
+         ("factor+offset", rng.uniform(0.1, 1e3), fscale * rng.uniform(-2, 2)),
+         # a constant far above the signal (set-point / deflection offset of raw data): binary64 still resolves the
+         # curve to ~1e-11 of its amplitude; judged for the three direct estimators only
+         ("offset-large", 1.0, fscale * rng.choice([1.0, -1.0]) * 2.0 ** rng.choice([17, 18, 20]))]
     return t
 
 
@@ -234,6 +237,8 @@ def judge(ctx, meta, force, results, truth=None):
         if est and isinstance(est[0], int) and res != est[0]:
             ctx.violation(f"estimate-not-returned:{m}", f"{m} estimated {est[0]} but compute_poc returned {res}", rep)
         for t in (r["tr"] if shape in WITH_BASELINE else []):
+            if t["kind"] == "offset-large" and m in FITTED:
+                continue
             r2 = t["res"]
             rep2 = {"input": {**rep["input"], "transform": {k: t[k] for k in ("kind", "a", "b")}},
                     "expected": res, "observed": r2}
